@@ -1,4 +1,126 @@
 package main
 
-// selectSkeletons is filled in with the hub/queue models (C12/C13).
-func selectSkeletons(w func(string, ...any), repo string) {}
+import (
+	"bytes"
+	"fmt"
+	"go/ast"
+	"go/parser"
+	"go/printer"
+	"go/token"
+	"path/filepath"
+	"sort"
+	"strings"
+)
+
+// selectSkeletons reads the concurrency files with go/ast and emits, for every method, its select statements
+// (pre-order) with the channel operation each case offers, and whether a CloseWithError method replaces a
+// nil error. The Lean models of the hubs and the queue take which cases exist from these facts.
+func selectSkeletons(w func(string, ...any), repo string) {
+	files := []string{"s/swarmutil/hubs.go", "s/swarmutil/queue.go"}
+	type sel struct {
+		fn    string
+		idx   int
+		cases []string
+	}
+	var sels []sel
+	nilGuard := map[string]bool{}
+	fset := token.NewFileSet()
+	src := func(n ast.Node) string {
+		var b bytes.Buffer
+		printer.Fprint(&b, fset, n)
+		return strings.Join(strings.Fields(b.String()), "")
+	}
+	for _, f := range files {
+		file, err := parser.ParseFile(fset, filepath.Join(repo, f), nil, 0)
+		if err != nil {
+			panic(err)
+		}
+		for _, d := range file.Decls {
+			fd, ok := d.(*ast.FuncDecl)
+			if !ok || fd.Recv == nil || fd.Body == nil {
+				continue
+			}
+			recv := src(fd.Recv.List[0].Type)
+			recv = strings.TrimPrefix(recv, "*")
+			if i := strings.IndexByte(recv, '['); i >= 0 {
+				recv = recv[:i]
+			}
+			name := recv + "." + fd.Name.Name
+			idx := 0
+			ast.Inspect(fd.Body, func(n ast.Node) bool {
+				switch n := n.(type) {
+				case *ast.SelectStmt:
+					s := sel{fn: name, idx: idx}
+					idx++
+					for _, c := range n.Body.List {
+						cc := c.(*ast.CommClause)
+						switch comm := cc.Comm.(type) {
+						case nil:
+							s.cases = append(s.cases, "default")
+						case *ast.SendStmt:
+							s.cases = append(s.cases, "send:"+src(comm.Chan))
+						case *ast.ExprStmt:
+							s.cases = append(s.cases, "recv:"+src(comm.X.(*ast.UnaryExpr).X))
+						case *ast.AssignStmt:
+							s.cases = append(s.cases, "recv:"+src(comm.Rhs[0].(*ast.UnaryExpr).X))
+						default:
+							panic(fmt.Sprintf("unknown select case shape in %s", name))
+						}
+					}
+					sels = append(sels, s)
+				case *ast.IfStmt:
+					// `if err == nil { err = ... }`
+					if fd.Name.Name == "CloseWithError" {
+						if be, ok := n.Cond.(*ast.BinaryExpr); ok && src(be) == "err==nil" && len(n.Body.List) == 1 {
+							if as, ok := n.Body.List[0].(*ast.AssignStmt); ok && src(as.Lhs[0]) == "err" {
+								nilGuard[name] = true
+							}
+						}
+					}
+				}
+				return true
+			})
+			if fd.Name.Name == "CloseWithError" {
+				if _, ok := nilGuard[name]; !ok {
+					nilGuard[name] = false
+				}
+			}
+		}
+	}
+	w("")
+	w("structure SelectFact where")
+	w("  fn : String")
+	w("  idx : Nat")
+	w("  cases : List String")
+	w("deriving DecidableEq, Repr")
+	w("")
+	w("def selects : List SelectFact := [")
+	for i, s := range sels {
+		q := make([]string, len(s.cases))
+		for j, c := range s.cases {
+			q[j] = fmt.Sprintf("%q", c)
+		}
+		comma := ","
+		if i == len(sels)-1 {
+			comma = ""
+		}
+		w("  { fn := %q, idx := %d, cases := [%s] }%s", s.fn, s.idx, strings.Join(q, ", "), comma)
+	}
+	w("]")
+	w("")
+	var names []string
+	for k := range nilGuard {
+		names = append(names, k)
+	}
+	sort.Strings(names)
+	w("/-- does `CloseWithError(nil)` store a non-nil error? -/")
+	w("def closeNilGuard : List (String × Bool) := [")
+	for i, k := range names {
+		comma := ","
+		if i == len(names)-1 {
+			comma = ""
+		}
+		w("  (%q, %v)%s", k, nilGuard[k], comma)
+	}
+	w("]")
+}
